@@ -2,10 +2,16 @@
 
 package main
 
-import spebble "github.com/zen-eth/shisui/storage/pebble"
+import (
+	spebble "github.com/zen-eth/shisui/storage/pebble"
+	thistory "github.com/zen-eth/shisui/types/history"
+)
 
 func init() {
 	registry["constgen_storage"] = func(c *Ctx) {
-		emitConsts(c, "storage", spebble.VerifConstantsStorage(), nil)
+		m := spebble.VerifConstantsStorage()
+		// the key type the history hybrid store routes to the ephemeral store (exported constant, no hook needed)
+		m["offerEphemeralType"] = uint64(thistory.OfferEphemeralType)
+		emitConsts(c, "storage", m, nil)
 	}
 }
